@@ -378,6 +378,7 @@ def _c09(tier, rng):
     n = 30000 if tier == "quick" else 600000
     yield ("v3 well-formed vectors: permutations, omissions, explicit X, all decoders", S.accepted3_ops(rng, n), False)
     yield ("v3 explicit-X versus omitted pairs", S.x_vs_omitted3(rng, n // 5), False)
+    yield ("v3 classes of spellings of one token set (orders, X written / omitted), compared among themselves", S.spellings3(rng, n // 10), False)
     yield ("v2 canonical vectors of every group pattern, all decoders", S.accepted2_ops(rng, n), False)
     yield ("all v3 base vectors, permuted", S.base3_permuted(rng, kind="D3"), False)
 
@@ -608,7 +609,11 @@ class SimpleProp:
             if g.startswith(("PANIC", "CRASH", "TIMEOUT")):
                 out.violations.append((op, "operation did not return normally: " + g[:100], g, m))
                 continue
-            if self.keep(op) and self.cmp(g) != self.cmp_model(m):
+            if hasattr(self, "cmp_op"):
+                differs = self.cmp_op(op, g) != self.cmp_op(op, m)
+            else:
+                differs = self.cmp(g) != self.cmp_model(m)
+            if self.keep(op) and differs:
                 out.mismatches += 1
                 if len(out.mismatch_examples) < 10:
                     out.mismatch_examples.append({"stream": self.prop, "op": op, "impl": g[:2000], "model": m[:2000]})
@@ -667,10 +672,48 @@ class NamesProp(SimpleProp):
             for v in range(-3, 11):
                 for tag in TAGS_JUDGED + TAGS_REGIONAL:
                     ops.append("NM %s %d %s" % (fn, v, tag))
+        # the tag space: every 2-letter tag, the 3-letter tags around "en" and "ja" (they may or may not be canonicalised to
+        # them by x/text; the harness reports x/text's classification), tags with script and region, private use, garbage
+        az = "abcdefghijklmnopqrstuvwxyz"
+        tags = [a + b for a in az for b in az]
+        tags += ["en" + c for c in az] + ["ja" + c for c in az] + ["jp" + c for c in az] + ["e" + c + "g" for c in az]
+        tags += ["eng", "jpn", "jam-JM", "fr-CA", "zh-Hant-TW", "sr-Latn-RS", "de-1996", "x-private", "i-klingon", "und-JP", "und-US",
+                 "mul", "zxx", "en-Latn", "ja-Jpan", "EN", "JA", "Ja", "e", "j", "", "en_US", "ja_JP", "e-n", "j-a", "ja-x-a", "en-u-ca-buddhist"]
+        if tier == "thorough":
+            tags += [a + b + c for a in az for b in az for c in az]
+        else:
+            tags += [rng.choice(az) + rng.choice(az) + rng.choice(az) for _ in range(300)]
+        vals = {m[0] + "ValueOf": m for m in vec.V3}
+        for tag in tags:
+            if tag in TAGS_JUDGED + TAGS_REGIONAL or not tag or " " in tag:
+                continue
+            some = [rng.choice(fns) for _ in range(3)] + ["AttackVector", "SeverityValueOf", "MUIValueOf"]
+            for fn in some:
+                for v in ((0,) if fn in NAME_FUNCS_TITLE else (rng.below(6), 99)):
+                    ops.append("NM %s %d %s" % (fn, v, tag))
         return ops
 
+    def expected(self, ops, go):
+        """the model knows three kinds of tag; which kind a tag string is, is x/text's verdict, reported by the harness"""
+        mops = []
+        for op, g in zip(ops, go):
+            f = op.split(" ")
+            cls = core.parse_kv(g).get("cls", "other")
+            mops.append("NM %s %s %s" % (f[1], f[2], cls))
+        mo = core.run_sharded(core.MODEL, mops)
+        # other tags of the two languages (en-US, ja-JP, ...) are left unspecified by the property: run, recorded, not compared
+        return ["unspecified" if mop.endswith(" regional") else m for mop, m in zip(mops, mo)]
+
+    def cmp(self, g):
+        if "cls=regional" in g:
+            return "unspecified"
+        return " ".join(t for t in g.split(" ") if not t.startswith("cls="))
+
     def keep(self, op):
-        return op.split(" ")[3] not in TAGS_REGIONAL
+        return True
+
+    def bucket(self, op, g):
+        return core.parse_kv(g).get("cls", "?")
 
     def judge_line(self, op, g, m):
         return []
@@ -678,6 +721,7 @@ class NamesProp(SimpleProp):
     def judge_all(self, ops, go):
         from . import vec
         res = {}
+        cls = {}
         for op, g in zip(ops, go):
             f = op.split(" ")
             d = core.parse_kv(g)
@@ -685,6 +729,7 @@ class NamesProp(SimpleProp):
                 res[(f[1], int(f[2]), f[3])] = core.unhx(d.get("name", "-")).decode("utf-8", "replace")
             except Exception:
                 res[(f[1], int(f[2]), f[3])] = None
+            cls[f[3]] = d.get("cls")
         msgs = []
         # the enumeration value of each code comes from the implementation's own Get (table dump)
         tops = []
@@ -732,7 +777,7 @@ class NamesProp(SimpleProp):
                         msgs.append(("%s value %s is named %r but %s value %s is named %r (%s)" % (mod, c, a, base, c, b, tag),
                                      "NM %sValueOf %d %s" % (mod, val[(mod, c)], tag)))
         for (fn, v, tag), n in res.items():
-            if tag in ("fr", "und", "zh-Hant", "de") and n != res.get((fn, v, "en")):
+            if cls.get(tag) == "other" and n != res.get((fn, v, "en")) and (fn, v, "en") in res:
                 msgs.append(("%s(%d) in %s is %r, English is %r" % (fn, v, tag, n, res.get((fn, v, "en"))), "NM %s %d %s" % (fn, v, tag)))
         return msgs
 
@@ -768,7 +813,16 @@ class ReportProp(SimpleProp):
         for _ in range(n):
             vecs.append(vec.rand_v3(rng, 2))
         ops = []
-        tags = TAGS_JUDGED + TAGS_REGIONAL if tier == "thorough" else ["en", "ja", "fr", "und"]
+        # every base vector at the environmental level (the levels' scores and severities differ for some of them although
+        # no temporal or environmental metric is given), one language each; thorough: with temporal suffixes too
+        k = 0
+        for ver in vec.VERS3:
+            for bt in vec.all_base3_tokens():
+                sufs = [""] if tier == "quick" else ["", "/E:P/RL:O/RC:U", "/E:U/RL:W/RC:R", "/RC:R"]
+                for suf in sufs:
+                    k += 1
+                    ops.append("R3 E %s %s" % (["en", "ja", "-"][k % 3], core.hx(vec.v3vec(ver, bt) + suf)))
+        tags = TAGS_JUDGED + TAGS_REGIONAL + ["-"] if tier == "thorough" else ["en", "ja", "fr", "und", "-"]
         for v in vecs:
             for L in "BTE":
                 # a report of level L is built from a decoder of level L: keep only its metrics
@@ -781,8 +835,24 @@ class ReportProp(SimpleProp):
     def keep(self, op):
         return op.split(" ")[2] not in TAGS_REGIONAL
 
+    def expected(self, ops, go):
+        """the report schema evaluated by the model on the decoded object and on the scores and severities the
+        implementation itself reports for that object (C17 is about which score a field renders, not its value)"""
+        mops = []
+        for op, g in zip(ops, go):
+            d = core.parse_kv(g)
+            if "OWN.s" in d and "OWN.sv" in d:
+                mops.append("R3W %s %s %s" % (op[3:], d["OWN.s"], d["OWN.sv"]))
+            else:
+                mops.append(op)
+        return core.run_sharded(core.MODEL, mops)
+
+    def cmp(self, g):
+        return " ".join(t for t in g.split(" ") if not t.startswith("OWN."))
+
     def judge_line(self, op, g, m):
         # the model *is* the schema evaluated on the specification's names: a differing field is a violation
+        g = self.cmp(g)
         if op.split(" ")[2] in TAGS_REGIONAL or g == m:
             return []
         gd, md = core.parse_kv(g), core.parse_kv(m)
@@ -939,14 +1009,85 @@ def gen_history(rng, nshared=0, shared_desc=None, maxops=40):
         elif c < 92:
             i = rng.below(len(slots))
             if slots[i][0] == 3:
-                ops.append("R%d,%s" % (i, rng.choice(["en", "ja", "fr"])))
+                ops.append("R%d,%s" % (i, rng.choice(["en", "ja", "fr", "-", "-", "ja"])))
         else:
             i = rng.below(len(slots))
             if slots[i][0] == 3:
-                ops.append("X%d" % i)
+                ops.append("X%d,%d" % (i, rng.below(6)))
     for i in range(len(slots)):
         ops.append("Q%d" % i)
     return ops, slots
+
+
+STRUCT = ("PANIC", "bad", "noreport", "ok", "same", "nil", "noview")
+
+
+def history_facts(hops, results, skip=0):
+    """What C15/C16 say about one history, independent of the *values* the queries return (those are the business of
+    the other properties): for every operation after the first `skip`, whether its result equals the first result of
+    the same operation on the same object since the last decode into that object (queries, reports, exports), and
+    whether decoding the same string at the same kind of decoder gave the same outcome.  Structural results
+    (ok / nil / noview / noreport / PANIC) are kept verbatim.  Returns (facts, keyed) where keyed maps a
+    cross-history key (ver, root level, view level, vector, op) to the result, for objects decoded exactly once."""
+    slots = []      # (ver, level, root)
+    roots = {}      # root -> [epoch, ndecodes, last vector or None, root level]
+    first = {}
+    facts = []
+    keyed = []
+    for i, op in enumerate(hops):
+        res = results[i - skip] if i >= skip and i - skip < len(results) else None
+        k = op[:1]
+        fact = None
+        try:
+            if k == "N":
+                root = len(roots)
+                roots[root] = [0, 0, None, op[2:]]
+                slots.append((op[1], op[2:], root))
+                fact = res
+            elif k == "D":
+                a = op[1:].split(",", 1)
+                ver, lvl, root = slots[int(a[0])]
+                st = roots[root]
+                st[0] += 1
+                st[1] += 1
+                own = (lvl == st[3])
+                st[2] = a[1] if (res is not None and res.startswith("r=1") and st[1] == 1 and own) else None
+                if res is None:
+                    st[2] = None
+                key = ("D", ver, lvl, a[1])
+                if res is not None:
+                    if st[1] == 1 and own:
+                        # into a fresh object: the outcome may depend on the string only
+                        fact = ("same-outcome", first.setdefault(key, res) == res)
+                    else:
+                        # into a used object the receiver's state is an input of Decode: outcome kept verbatim
+                        fact = res
+            elif k == "V":
+                a = op[1:].split(",", 1)
+                ver, lvl, root = slots[int(a[0])]
+                if res is None or res == "ok":
+                    if "BTE".index(a[1]) < "BTE".index(lvl):
+                        slots.append((ver, a[1], root))
+                fact = res
+            elif k in "QRX":
+                idx = op[1:].split(",", 1)[0]
+                ver, lvl, root = slots[int(idx)]
+                st = roots[root]
+                if res is not None:
+                    if res in STRUCT:
+                        fact = res
+                    else:
+                        key = (k, op.split(",", 1)[1] if "," in op else "", lvl, root, st[0])
+                        fact = ("same-as-first", first.setdefault(key, res) == res)
+                        if st[2] is not None:
+                            keyed.append(((ver, st[3], lvl, st[2], k + (op.split(",", 1)[1] if "," in op else "")), res))
+            else:
+                fact = res
+        except (ValueError, IndexError):
+            fact = ("malformed-history", res)
+        if i >= skip:
+            facts.append(fact)
+    return facts, keyed
 
 
 class HistoryProp(SimpleProp):
@@ -975,8 +1116,31 @@ class HistoryProp(SimpleProp):
             ops.append("H " + ";".join(twin))
         return ops
 
+    def cmp_op(self, op, line):
+        return tuple(history_facts(op[2:].split(";"), line.split(";"))[0])
+
     def judge_all(self, ops, go):
         msgs = []
+        seen = {}
+        for k in range(len(ops)):
+            h = ops[k][2:].split(";")
+            g = go[k].split(";")
+            facts, keyed = history_facts(h, g)
+            for i, fct in enumerate(facts):
+                if isinstance(fct, tuple) and fct[-1] is False:
+                    what = ("decoding the same string into another fresh object gave a different outcome" if fct[0] == "same-outcome" else
+                            "operation %d (%s) returned something else than the same operation did earlier on the same "
+                            "object with no decode in between" % (i, h[i]))
+                    msgs.append((what, ops[k]))
+                    break
+            # the same vector decoded into a fresh object of the same kind gives the same query results in every history
+            for key, res in keyed:
+                first = seen.setdefault(key, (k, res))
+                if first[1] != res:
+                    msgs.append(("%s of a %s-level v%s object decoded from the same vector differs from history #%d: the result depends "
+                                 "on what the process did before" % (key[4], key[1], key[0], first[0]), ops[k]))
+                    break
+        self.cross_classes = len(seen)
         for k in range(0, len(ops) - 1, 2):
             h = ops[k][2:].split(";")
             g = go[k].split(";")
@@ -1066,7 +1230,8 @@ class ConcProp:
                 if c != s:
                     out.violations.append(("H " + hs[g], "goroutine %d got different results concurrently and sequentially" % g, c[:1500], s[:1500]))
                 m = ";".join(mo[g].split(";")[nset:])
-                if s != m:
+                allops = shared + hs[g].split(";")
+                if history_facts(allops, s.split(";"), skip=nset)[0] != history_facts(allops, m.split(";"), skip=nset)[0]:
                     out.mismatches += 1
                     if len(out.mismatch_examples) < 5:
                         out.mismatch_examples.append({"stream": "conc", "op": mops[g][:3000], "impl": s[:1500], "model": m[:1500]})
